@@ -228,6 +228,11 @@ async def play(case: dict) -> dict:  # noqa: C901
                 chunk = await stream.receive(n)
             except Exception as e:  # noqa: BLE001
                 out[endkey] = exc_name(e)
+                if cut:
+                    # a truncated endpoint shuts down both of its BIOs: its own sends fail from
+                    # now on, so the other direction cannot complete either
+                    out[key] = bytes(got)
+                    tg.cancel_scope.cancel()
                 break
             if not 1 <= len(chunk) <= n:
                 out["bounds"] = f"receive({n}) returned {len(chunk)} bytes"
@@ -508,8 +513,8 @@ def run(ctx: Ctx) -> Result:
         evaluate(corpus, res, [c.get("_wire") for c in corpus])
     rng = ctx.rng
     # 1. intact sessions: small messages with all receive sizes and fragmentations, then big ones
-    sess = [gen_session(rng, big=False) for _ in range(ctx.n(160, 1500))]
-    sess += [gen_session(rng, big=True) for _ in range(ctx.n(25, 150))]
+    sess = [gen_session(rng, big=False) for _ in range(ctx.n(160, 4000))]
+    sess += [gen_session(rng, big=True) for _ in range(ctx.n(25, 400))]
     for i in range(0, len(sess), 50):
         if ctx.time_left() < 25:
             break
